@@ -46,6 +46,22 @@ def run_prop(ctx, prop, rule, min_cells=None, require=None):
                 ctxs["counts"][k] = ctxs["counts"].get(k, 0) + v
             vctx += p["violations"]
     ctx.log("contexts: %s" % ctxs)
+    # threads of one process, each with its own segment and client, all at once
+    thr = {"evaluations": 0, "threads": 0}
+    for bi, binary in enumerate((rel, dbg)):
+        parts = ctx.run_shards(binary, ["threads", "--prop", prop, "--seed", str(ctx.seed * 1000 + 60 + bi), "--count", str((300000 if q else 6000000) // (1 + 4 * bi)), "--threads", "6", "--blur", str(blur)], 2, 1800)
+        from .shm import crash_violations
+        vctx += crash_violations(parts)
+        for p in parts:
+            if p is None:
+                a1["shards_lost"] += 1
+                continue
+            if p.get("_crashed"):
+                continue
+            thr["evaluations"] += p["evaluations"]
+            thr["threads"] = p["threads"]
+            vctx += p["violations"]
+    ctx.log("threads with their own clients: %s" % thr)
     n3, v3, info = client.c_parity(ctx, rel, cdrv, prop, 300000 if q else 1000000, [prop], blur)
     ctx.log("C library parity + python oracle: %d vectors %s" % (n3, info))
     viol = v1 + v2 + v3 + vctx
@@ -83,6 +99,7 @@ def run_prop(ctx, prop, rule, min_cells=None, require=None):
         "outcomes_debug": a2["outcomes"],
         "chain_checks": a1["chain_checks"] + a2["chain_checks"],
         "rust_asan_sweep": asan_info,
+        "threads_with_own_clients": thr,
         "contexts": dict(ctxs, rule="per iteration one of: segment file replaced by a new inode while an older context of the process is alive / after it was closed, then a new context on the same path must answer from the new file (and follow its next publication); mmap() made to fail (ENOMEM, ENODEV, EAGAIN, EACCES) at the moment of the open: either the open is refused with that errno or the context answers like any other; same oracle as the sweep"),
         "hostile_caller_state": {"release": a1.get("hostile_caller_state"), "debug": a2.get("hostile_caller_state")},
         "causality_blur_measured_ns": blurs,
